@@ -29,17 +29,20 @@ func (check) Cases(tier string) int {
 }
 
 func (check) Rule() string {
-	return "pairs (A, B = mutation of A) of trees whose 3 keys repeat at every depth, merged with PathSep(\".\"), one of 5 global policies and a pool of one to three Field{Merge,Replace,Append,Prepend}Values options; field paths: concrete paths of 1-3 names/indices (present or absent, addressing objects, lists, list positions, primitives), **.name, *.name over a top-level list, name.*.name; combinations: concrete with concrete, concrete with **.name, **.name with **.name. List-bearing subtrees are planted at the option paths and at decoys (the same names in the same order at another depth). Call 1 uses the whole pool; in half of the cases one or two further calls reuse the SAME Option values in another selection/order, under another global policy or with swapped operands. Every result is compared with the merge model run with policy(q) = policy of the option whose subtree is the innermost one containing q, else the global one; reused Option values are compared with a twin call made with newly created ones; a third of the cases repeats every call with a destination in which one or two object/list valued settings on, above or below the option paths (also inside one another, also through a chain) are replaced by references to top-level settings, VarExp on: same result as for the literal destination, referenced settings unchanged; plus two model-independent laws (outside the named subtrees - for **.name: outside everything called name - nothing changes; a path matching nothing changes nothing). Non-trivial = the options change the model result w.r.t. the plain global merge; distinct = distinct (global, options, A, B)."
+	return "pairs (A, B = mutation of A) of trees whose 3 keys repeat at every depth, merged with one of 5 global policies and a pool of one to three Field{Merge,Replace,Append,Prepend}Values options; field paths: concrete paths of 1-3 names/indices (present or absent, addressing objects, lists, list positions, primitives), patterns with ** (**.n, **.n.m, n.**.m, n.**.m.k, **.n.idx, **.n.**.m; ** = any number of components, also none), *.name over a top-level list and name.*.name (these two only alone); combinations of concrete paths and ** patterns incl. pairs whose subtrees nest across a ** (a concrete path below a node a ** pattern addresses, an inner ** next to a root **). List-bearing subtrees are planted at the option paths and at decoys (the same names in the same order at another depth). Special dimensions (modes.go): 12% of the cases turn one or two key names into numeric NAMES (20..2000) in trees, paths and decoys, kept names by EnableNumKeys(true), MaxIdx(0/7/19) or by being above the default MaxIdx; 2% plant a list of 1024-1034 elements and point an option at position 1023..1031 of it (with and without MaxIdx(5000)); 8% give PathSep after the field options or not at all. Call 1 uses the whole pool; in half of the cases one or two further calls reuse the SAME Option values in another selection/order, under another global policy or with swapped operands. Every result is compared with the merge model run with policy(q) = policy of the option whose subtree is the innermost one containing q, else the global one; reused Option values are compared with a twin call made with newly created ones; a third of the cases repeats every call with a destination in which one or two object/list valued settings on, above or below the option paths (also inside one another, also through a chain) are replaced by references to top-level settings, VarExp on: same result as for the literal destination, referenced settings unchanged; plus two model-independent laws (outside the subtrees the options address nothing changes; a path matching nothing changes nothing). Non-trivial = the options change the model result w.r.t. the plain global merge; distinct = distinct (global, options, A, B)."
 }
 
 func (check) Assumptions() []string {
 	return []string{
-		"nested policies, dictionaries: the subtree of an option is merged as if its policy were the global one also where it lies below a node merged under replace (global ReplaceValues or an enclosing FieldReplaceValues): the replace node takes B's named settings, but a child at which an option with another policy starts is merged with A's old child under that policy, and a child on the way to such a subtree is B's child except for what is found further down that way (walk.go); the as-built reading (old named settings dropped before any field is looked at) is the predicate of the finding field-policy-inside-enclosing-replace-has-no-effect",
+		"nested policies, dictionaries: the subtree of an option is merged as if its policy were the global one also where it lies below a node merged under replace (global ReplaceValues or an enclosing FieldReplaceValues): the replace node takes B's named settings (a setting B does not name is dropped, also one on an option path), but a child at which an option with another policy starts is merged with A's old child under that policy, and a child on the way to such a subtree is B's child except for what is found further down that way (walk.go)",
 		"nested policies, lists: elements meet only where the list is merged by index; below a replaced, appended or prepended list no option has two values to merge (positions shift), nothing is claimed there",
 		"destinations holding references: only with a global policy other than ReplaceValues (it drops the referenced top-level settings, what is left may refer to nothing); sources holding references are C10's matter; strings containing '$' are not generated in those cases",
-		"wildcard shapes other than **.name, *.name (top-level list) and name.*.name are not generated: their meaning is not settled by statement or documentation",
-		"combinations are generated only where the statement settles them: two options never name the same path; a **.name option is combined with a concrete path only if name does not occur in that path (so the ** subtree can lie inside the concrete one - innermost decides - but never encloses its start); single-level wildcards are only given alone",
-		"PathSep(\".\") precedes the field options (documented usage; the options hard-wire the \".*\" suffix, other separators are not generated)",
+		"the statement names one wildcard, '**' (any number of path components, also none): patterns with '**' in front, in the middle or twice are generated alone and in combination; a trailing '**' is not generated (nothing says whether a.** differs from a)",
+		"the single-level wildcard '*' is not named by the statement: *.name and name.*.name are generated only alone (they behave like the documentation's examples); what '*' means next to other options, next to position options, below '**' or twice in one call is not claimed",
+		"combinations are generated only where the statement settles them: where subtrees nest the innermost decides; which of two options wins whose subtrees START at the same node is open, so two options never name the same path and a ** pattern is combined with another path only if their last components differ",
+		"field names are dot notation (statement: 'a dotted field path', documentation of the options): the effect does not depend on PathSep(\".\") standing in front of the field options or being given at all (pathSepPlacementClaimed in modes.go); separators other than '.' and names escaped with EscapePath are not generated",
+		"a numeric component of a field path addresses the list position of that number or the setting of that NAME, whichever the data holds; numeric names are plain decimals above every list length of the case (no second spelling such as 010 or 0x10, that is C20's matter)",
+		"the statement is about Merge: Field options passed to Unpack into typed targets (structs with pre-filled *Config fields) are not generated; the result of a Merge is read by Unpack into map/slice without field options",
 		"an Option is a value: a Merge call's result depends on the options passed to THAT call only, not on calls the same Option value took part in before",
 		"merge model and canonical comparison as in C01",
 	}
@@ -497,6 +500,12 @@ func (check) Run(seed int64, tier string, idx int, verbose bool) harness.Result 
 		o.Prims = noDollar
 	}
 	g := globals[r.Intn(len(globals))]
+	// special dimensions of a case (modes.go): numeric NAMES on the field paths,
+	// a list longer than the default MaxIdx, PathSep not in front
+	md := drawModes(r)
+	if md.long && r.Intn(4) > 0 {
+		g = globals[0] // elements only meet where the list is merged by index
+	}
 	a := gen.Top(r, o, 3)
 	b := gen.MutateTop(r, o, a, 3)
 	pickHFor := func(gp model.Policy) int {
@@ -524,7 +533,9 @@ func (check) Run(seed int64, tier string, idx int, verbose bool) harness.Result 
 	for e := 0; e < extra; e++ {
 		for try := 0; try < 4; try++ {
 			var p []string
-			if r.Intn(3) == 0 {
+			if r.Intn(4) == 0 {
+				p = nestedPartner(r, fos[r.Intn(len(fos))].path)
+			} else if r.Intn(3) == 0 {
 				p = genDoubleStar(r)
 			} else if r.Intn(2) == 0 {
 				p = genPath(r, b)
@@ -603,7 +614,16 @@ func (check) Run(seed int64, tier string, idx int, verbose bool) harness.Result 
 		}
 		decoys = kept
 	}
-	desc := fmt.Sprintf("global=%v options=%v A=%s B=%s", g.p, fos, a, b)
+	if hasStarForm(fos) {
+		md.long, md.num = false, -1
+	}
+	if md.long {
+		fos, decoys = md.plantLongList(r, a, b, fos, prims), nil
+	}
+	if md.num >= 0 {
+		md.renameNumeric(r, a, b, fos, decoys)
+	}
+	desc := fmt.Sprintf("global=%v options=%v%s A=%s B=%s", g.p, fos, md.String(), md.show(a), md.show(b))
 	if idx < 2 {
 		res.Sample = desc
 	}
@@ -628,9 +648,7 @@ func (check) Run(seed int64, tier string, idx int, verbose bool) harness.Result 
 		return l
 	}
 	mkOpts := func(gopts []ucfg.Option, fieldOpts []ucfg.Option) []ucfg.Option {
-		opts := []ucfg.Option{ucfg.PathSep(".")}
-		opts = append(opts, gopts...)
-		return append(opts, fieldOpts...)
+		return md.options(gopts, fieldOpts)
 	}
 	// lib merges x then y with opts and returns the canonical result.
 	lib := func(x, y *model.Node, opts []ucfg.Option, d string) (got string, ok bool) {
@@ -675,7 +693,7 @@ func (check) Run(seed int64, tier string, idx int, verbose bool) harness.Result 
 			panicked, pv, where := harness.Safe(func() {
 				var problem string
 				var err error
-				got, problem, err = mergeLibRef(aRef, y, sites, append(append([]ucfg.Option{}, globals[gl].opts...), fieldOpts...))
+				got, problem, err = mergeLibRef(aRef, y, sites, mkOpts(globals[gl].opts, fieldOpts))
 				res.Eval(4)
 				if err != nil {
 					res.Violate("error-with-destination-reference", "%v; %s", err, d)
@@ -724,6 +742,36 @@ func (check) Run(seed int64, tier string, idx int, verbose bool) harness.Result 
 		}
 		if got == strict {
 			return false
+		}
+		if md.ps != psFirst && got == mergeModel(x, y, model.Global(gp)).CanonTop() {
+			res.Violate("field-option-ignored-unless-pathsep-precedes-it", "the per-field options have no effect at all because PathSep(\".\") is not given in front of them (their names are dot notation by documentation, a one-component name has no separator at all): got %s want %s; %s", got, strict, d)
+			return true
+		}
+		// options lost altogether, each for one of the structural reasons
+		// (smallest set of lost options first)
+		for size := 1; size <= len(fs); size++ {
+			for mask := 1; mask < 1<<uint(len(fs)); mask++ {
+				var rest []fopt
+				sig, n, all := "", 0, true
+				for i, f := range fs {
+					if mask&(1<<uint(i)) == 0 {
+						rest = append(rest, f)
+						continue
+					}
+					n++
+					sg := md.lostOptionSig(fs, i)
+					if sg == "" {
+						all = false
+					} else if sig == "" {
+						sig = sg
+					}
+				}
+				if n != size || !all || got != mergeModel(x, y, strictPolicy(gp, rest)).CanonTop() {
+					continue
+				}
+				res.Violate(sig, "the result is the one the call gives with only the options %v: got %s want %s; %s", rest, got, strict, d)
+				return true
+			}
 		}
 		if got == walkAsBuilt(x, y, strictPolicy(gp, fs)).CanonTop() {
 			res.Violate("field-policy-inside-enclosing-replace-has-no-effect", "an option with a merging policy whose subtree lies below a node merged under replace (global ReplaceValues or an enclosing FieldReplaceValues) has nothing left to merge with, the old named settings are dropped before any field is looked at: got %s want %s; %s", got, strict, d)
@@ -797,6 +845,59 @@ func (check) Run(seed int64, tier string, idx int, verbose bool) harness.Result 
 		}
 	}
 	res.SetAdd("options_per_merge", strconv.Itoa(len(fos)))
+	// would the loss of the options in sel show in the result?
+	decides := func(sel func(f fopt) bool) bool {
+		var rest []fopt
+		for _, f := range fos {
+			if !sel(f) {
+				rest = append(rest, f)
+			}
+		}
+		return len(rest) < len(fos) && mergeModel(a, b, strictPolicy(g.p, rest)).CanonTop() != strict
+	}
+	res.SetAdd("pathsep_placement", [...]string{"first", "after the field options", "absent"}[md.ps])
+	if md.ps != psFirst {
+		res.Ev("pathsep_not_first_cases", 1)
+		if strict != plain.CanonTop() {
+			res.Ev("pathsep_not_first_and_options_decide", 1)
+		}
+	}
+	if md.num >= 0 {
+		res.Ev("numeric_name_cases", 1)
+		res.SetAdd("numeric_names_kept_by", numOptions[md.num].name)
+		for n := range md.numNames {
+			res.SetAdd("numeric_names", n)
+		}
+		if decides(func(f fopt) bool { return md.throughNumericName(f.path) }) {
+			res.Ev("numeric_name_on_option_path_decides", 1)
+		}
+	}
+	if md.long {
+		res.Ev("long_list_cases", 1)
+		res.SetAdd("long_list_position", strconv.Itoa(md.longIdx))
+		if decides(func(f fopt) bool { return positionAbove1024(f.path) }) {
+			res.Ev("long_list_position_above_1024_decides", 1)
+		}
+	}
+	for i := range fos {
+		switch md.lostOptionSig(fos, i) {
+		case "double-star-followed-by-several-components-never-applies":
+			res.Ev("**_followed_by_several_components", 1)
+			if decides(func(f fopt) bool { return samePath(f.path, fos[i].path) }) {
+				res.Ev("**_followed_by_several_components_decides", 1)
+			}
+		case "option-below-a-node-matched-by-**-is-lost":
+			res.Ev("option_below_a_**_match", 1)
+			if decides(func(f fopt) bool { return samePath(f.path, fos[i].path) }) {
+				res.Ev("option_below_a_**_match_decides", 1)
+			}
+		case "inner-**-lost-next-to-another-**":
+			res.Ev("inner_**_next_to_another_**", 1)
+			if decides(func(f fopt) bool { return samePath(f.path, fos[i].path) }) {
+				res.Ev("inner_**_next_to_another_**_decides", 1)
+			}
+		}
+	}
 	if len(fos) > 1 {
 		res.SetAdd("combination", comboKind(fos))
 		if hasDoubleStar(fos) && comboKind(fos)[len("0x**+"):] != "0xconcrete" {
@@ -935,7 +1036,7 @@ func (check) Run(seed int64, tier string, idx int, verbose bool) harness.Result 
 		return res.Done()
 	}
 	panicked, pv, where := harness.Safe(func() {
-		cPlain, err := mergeLib(a, b, append([]ucfg.Option{ucfg.PathSep(".")}, g.opts...))
+		cPlain, err := mergeLib(a, b, mkOpts(g.opts, nil))
 		res.Eval(2)
 		if err != nil {
 			return
